@@ -179,7 +179,7 @@ def _module(cases, clean):
         exprs += c["e"]
         for k in c.get("k") or []:
             exprs += k if isinstance(k, list) else [k]
-    needs = ["HasRepr"] if any("Opaque" in e for e in exprs) else []
+    needs = ["HasRepr"] if any("Opaque" in e or "Flk" in e for e in exprs) else []
     return P.module([_site_src(i, c) for i, c in enumerate(cases)], exprs, needs, clean=clean)
 
 
